@@ -365,3 +365,159 @@ func (s *Spec) UsedTerms() []int {
 	sort.Ints(out)
 	return out
 }
+
+// Prune removes terminals and nonterminals that occur nowhere (rules, levels, start) and renumbers.
+func (s *Spec) Prune() *Spec {
+	c := s.Clone()
+	usedT := make([]bool, len(c.Terms))
+	usedN := make([]bool, len(c.NTs))
+	if c.Start < len(usedN) {
+		usedN[c.Start] = true
+	}
+	for _, r := range c.Rules {
+		usedN[r.L] = true
+		for _, x := range r.R {
+			if x.NT {
+				usedN[x.I] = true
+			} else {
+				usedT[x.I] = true
+			}
+		}
+		if r.Prec >= 0 {
+			usedT[r.Prec] = true
+		}
+	}
+	mapT := make([]int, len(c.Terms))
+	var nt []Term
+	for i, t := range c.Terms {
+		if usedT[i] {
+			mapT[i] = len(nt)
+			nt = append(nt, t)
+		} else {
+			mapT[i] = -1
+		}
+	}
+	mapN := make([]int, len(c.NTs))
+	var nn []NT
+	for i, n := range c.NTs {
+		if usedN[i] {
+			mapN[i] = len(nn)
+			nn = append(nn, n)
+		} else {
+			mapN[i] = -1
+		}
+	}
+	c.Terms, c.NTs = nt, nn
+	c.Start = mapN[c.Start]
+	for i := range c.Rules {
+		r := &c.Rules[i]
+		r.L = mapN[r.L]
+		for k := range r.R {
+			if r.R[k].NT {
+				r.R[k].I = mapN[r.R[k].I]
+			} else {
+				r.R[k].I = mapT[r.R[k].I]
+			}
+		}
+		if r.Prec >= 0 {
+			r.Prec = mapT[r.Prec]
+		}
+	}
+	var lv []Level
+	for _, l := range c.Levels {
+		var ts []int
+		for _, t := range l.Terms {
+			if mapT[t] >= 0 {
+				ts = append(ts, mapT[t])
+			}
+		}
+		if len(ts) > 0 {
+			lv = append(lv, Level{l.Assoc, ts})
+		}
+	}
+	c.Levels = lv
+	return c
+}
+
+// Simpler returns specs that are one step simpler than s (fewer rules, shorter rules, fewer declarations).
+func (s *Spec) Simpler() []*Spec {
+	var out []*Spec
+	// drop a rule (later ones first: keeps rule numbers of earlier rules)
+	for i := len(s.Rules) - 1; i >= 0; i-- {
+		c := s.Clone()
+		c.Rules = append(c.Rules[:i], c.Rules[i+1:]...)
+		if c.RawActions != nil {
+			na := map[int]string{}
+			for k, v := range c.RawActions {
+				if k < i {
+					na[k] = v
+				} else if k > i {
+					na[k-1] = v
+				}
+			}
+			c.RawActions = na
+		}
+		out = append(out, c.Prune())
+	}
+	// drop a right-hand-side symbol
+	for i := range s.Rules {
+		for k := range s.Rules[i].R {
+			c := s.Clone()
+			r := &c.Rules[i]
+			r.R = append(r.R[:k], r.R[k+1:]...)
+			r.Act = simplifyAct(r.Act, k+1)
+			out = append(out, c.Prune())
+		}
+	}
+	// drop a precedence level, a %prec, an action, tags
+	for i := range s.Levels {
+		c := s.Clone()
+		c.Levels = append(c.Levels[:i], c.Levels[i+1:]...)
+		out = append(out, c)
+	}
+	for i := range s.Rules {
+		if s.Rules[i].Prec >= 0 {
+			c := s.Clone()
+			c.Rules[i].Prec = -1
+			out = append(out, c.Prune())
+		}
+	}
+	for i := range s.Rules {
+		if s.Rules[i].Act != nil && s.Rules[i].Act.Op != 'k' {
+			c := s.Clone()
+			c.Rules[i].Act = &Expr{Op: 'k', K: 1}
+			out = append(out, c)
+		}
+	}
+	return out
+}
+
+// simplifyAct rewrites an action after right-hand-side position pos (1-based) was removed.
+func simplifyAct(e *Expr, pos int) *Expr {
+	if e == nil {
+		return nil
+	}
+	switch e.Op {
+	case 'd':
+		if e.K == pos {
+			return &Expr{Op: 'k', K: 1}
+		}
+		if e.K > pos {
+			return &Expr{Op: 'd', K: e.K - 1}
+		}
+		return e
+	case '+', '*':
+		return &Expr{Op: e.Op, L: simplifyAct(e.L, pos), R: simplifyAct(e.R, pos)}
+	case 'c':
+		c := &Expr{Op: 'c'}
+		for _, p := range e.Parts {
+			q := simplifyAct(p, pos)
+			if q.Op == 'k' {
+				q = &Expr{Op: 'q', S: "_"}
+			}
+			c.Parts = append(c.Parts, q)
+		}
+		return c
+	}
+	return e
+}
